@@ -27,8 +27,13 @@ class Tok:
 def parse_line(line):
     if "|" in line:
         head, trig = line.split("|", 1)
+        trig = trig.split("|")[0]          # a third segment (fleet: items that became retrievable) is read separately
         return head.strip(), [(int(x.split('@')[0]), int(x.split('@')[1])) for x in trig.split()]
     return line.strip(), []
+
+def parse_ready(line):
+    p = line.split("|")
+    return [int(x) for x in p[2].split()] if len(p) > 2 else []
 
 def filt_ok(f, item, td, now):
     """item = dict(id, kind, ptime).  None = cannot tell."""
@@ -53,8 +58,13 @@ class StoreJudge:
             self.cap = None if w[2] == "inf" else int(w[2])
             self.prio = False; self.filter = False; self.td = 0
             self.mode = w[3]; self.timed = True
+        elif self.family == "fleet":
+            self.cap = int(w[2]); self.prio = False; self.filter = False; self.td = 0
+            self.mode = "FIFO"; self.timed = True
+            self.fdelay, self.ftransit = int(w[3]), int(w[4])
         else:
             raise ValueError(header)
+        self.deadline = {}        # fleet: seq -> latest instant at which the entry must be retrievable
         self.toks = {}
         self.now = 0
         self.inside = []          # list of dict(id, kind, ptime, ready_at, seq)
@@ -99,10 +109,16 @@ class StoreJudge:
             self.quiescent = True
         elif k == "kstep":
             pass
+        elif k == "ev":
+            if head.startswith("t="):
+                tnew = int(head[2:])
+                if tnew < self.now: self.v("C19", f"the clock went back from {self.now} to {tnew}", "time")
+                elif tnew > self.now: self.advance(tnew - self.now)
         else:
             # an API call at this instant may leave internal events pending (timers, trigger events)
             if self.timed or self.filter: self.quiescent = False if k in ("put",) else self.quiescent
-        if head.startswith("err") and k in ("adv", "settle", "kstep"):
+        if self.family == "fleet": self.quiescent = True     # availability is reported explicitly, the triggers run inside the move
+        if head.startswith("err") and k in ("adv", "settle", "kstep", "ev"):
             self.v("C20", f"exception escaped the kernel during {k}: {head}")
             return
         newtok = None
@@ -135,7 +151,39 @@ class StoreJudge:
             if e["ready_at"] < self.now or (k == "settle" and e["ready_at"] <= self.now): e["sure"] = True
         if head.startswith("err") and trig:
             self.v("C07", f"rejected call {op} fired tokens {trig}")
+        if self.family == "fleet": self.fleet_line(op, parse_ready(line))
         self.after_line(op)
+
+    # ---- fleet (C14): batches, round trip, bounded wait
+    def fleet_line(self, op, ready_ids):
+        INF = 10 ** 9
+        if ready_ids:
+            T = self.now; D = T - 2 * self.ftransit
+            batch = []
+            for iid in ready_ids:
+                e = next((x for x in self.inside if x["id"] == iid and x["ready_at"] >= INF), None)
+                if e is None:
+                    self.v("C14", f"item {iid} reported retrievable at t={T} but it is not a loaded, not yet delivered item", "batch"); continue
+                e["ready_at"] = T; e["sure"] = True; batch.append(e)
+            if D < 0 or any(e["ptime"] > D for e in batch):
+                late = [e["id"] for e in batch if e["ptime"] > D]
+                self.v("C14", f"items {late} became retrievable at t={T}, less than a full round trip (2 x {self.ftransit}) after they were loaded", "round-trip")
+            left = [e["id"] for e in self.inside if e["ready_at"] >= INF and e["ptime"] < D]
+            if left:
+                self.v("C14", f"the trip that left at t={D} delivered {[e['id'] for e in batch]} at t={T} but items {left}, loaded before it left, stayed behind", "left-behind")
+            if [e["seq"] for e in batch] != sorted(e["seq"] for e in batch):
+                self.v("C14", f"batch delivered at t={T} is not in loading order: {[e['id'] for e in batch]}", "order")
+        if op[0] == "put" and self.cap is not None and len(self.inside) == self.cap:
+            for e in self.inside:
+                if e["ready_at"] >= INF:
+                    self.deadline[e["seq"]] = min(self.deadline.get(e["seq"], INF), self.now + 2 * self.ftransit)
+        for e in self.inside:
+            if e["ready_at"] >= INF:
+                dl = min(self.deadline.get(e["seq"], INF), e["ptime"] + self.fdelay + 2 * self.ftransit)
+                if self.now > dl and not e.get("late_reported"):
+                    e["late_reported"] = True
+                    why = "the fleet was full" if self.deadline.get(e["seq"], INF) == dl else f"delay {self.fdelay} + round trip {2 * self.ftransit}"
+                    self.v("C14", f"item {e['id']} loaded at t={e['ptime']} is still not retrievable at t={self.now}; it had to be by t={dl} ({why})", "late")
 
     # ---- token firing: C05 order, C06 binding
     def on_fire(self, tid):
@@ -194,7 +242,7 @@ class StoreJudge:
                 return
             t.state = "used"
             delay = op[5] if len(op) > 5 else 0
-            e = dict(id=op[3], kind=op[4], ptime=self.now, ready_at=self.now + delay, seq=self.nput)
+            e = dict(id=op[3], kind=op[4], ptime=self.now, ready_at=(10 ** 9 if self.family == "fleet" else self.now + delay), seq=self.nput)
             self.nput += 1
             # aliasing of one object stored twice: the filter store re-stamps put_time on the object
             if self.filter:
@@ -213,7 +261,7 @@ class StoreJudge:
                 self.v("C07", f"put accepted without a valid reservation (token {tid}, actor {a})")
                 # keep the books consistent with what the store did
                 delay = op[5] if len(op) > 5 else 0
-                self.inside.append(dict(id=op[3], kind=op[4], ptime=self.now, ready_at=self.now + delay, seq=self.nput))
+                self.inside.append(dict(id=op[3], kind=op[4], ptime=self.now, ready_at=(10 ** 9 if self.family == "fleet" else self.now + delay), seq=self.nput))
                 self.nput += 1
                 if t is not None and t.state == "granted": t.state = "used"
             elif head != "err RuntimeError":
